@@ -14,7 +14,7 @@ INT_VALUES = [0, 1, -1, 2, -2, 3, -3, 7, 10, -7, 100]
 REAL_QUARTERS = list(range(-40, 41))
 STR_ALPHABET = ["a", "b", "A", "B", "0", " ", "'", "%", "_", "\\", '"', ";", "-", "☃"]
 PAYLOADS = ["' OR 1=1 --", "%'; DROP TABLE item; --", "\\'", "a%b", "a_b", "100%", "_", "%", "\\",
-            "ab", "aB", "Ab", " a ", "a'b", "''", "--", "/*", "a\\%b", "\\_"]
+            "ab", "aB", "Ab", " a ", "a'b", "''", "--", "/*", "a\\%b", "\\_", "%41", "a%20b", "%27"]
 DT_GRID = ["2019-12-31T23:59:59", "2020-01-01T00:00:00", "2020-02-29T12:30:00", "2020-03-01T00:00:01",
            "2021-06-15T08:05:09", "1999-01-01T00:00:00"]
 DATE_GRID = ["2019-12-31", "2020-01-01", "2020-02-29", "2020-03-01", "2021-06-15", "1999-01-01"]
@@ -320,8 +320,11 @@ def in_list(draw, d, F):
     n = draw(st.integers(1, 4))
     items = []
     for _ in range(n):
-        if F.in_exprs and draw(st.integers(0, 5)) == 0:
+        k = draw(st.integers(0, 11))
+        if F.in_exprs and k < 2:
             items.append(draw(expr(ty, 0, F)))
+        elif k == 2 and getattr(F, "in_null", True):
+            items.append(("lit", "null", ""))
         else:
             items.append(draw(LIT[ty](F)))
     return ("cmp", "in", e, ("list", tuple(items)))
